@@ -49,12 +49,55 @@ type wsCfg struct {
 	IdpKey string `json:"idpkey"`          // "rsa-key" (IdentityProvider.Key) | "rsa-signer" | "ecdsa-signer" (IdentityProvider.Signer)
 	Hash   string `json:"hash"`            // "default" (field left empty) | "sha1" | "sha256" | "sha384" | "sha512"
 	MdAge  string `json:"mdage,omitempty"` // "stale": both metadata documents were published three days ago (validUntil has passed)
+	ReqAttrs bool `json:"reqattrs,omitempty"` // the registered SP metadata requests attributes (AttributeConsumingService)
+}
+
+// what the SP asks for, and the session field the library documents for each name
+var wsRequested = []struct{ Name, Format, Field string }{
+	{"user_id", "urn:oasis:names:tc:SAML:2.0:attrname-format:basic", "UserName"},
+	{"email", "urn:oasis:names:tc:SAML:2.0:attrname-format:basic", "UserEmail"},
+	{"first_name", "urn:oasis:names:tc:SAML:2.0:attrname-format:unspecified", "UserGivenName"},
+	{"last_name", "urn:oasis:names:tc:SAML:2.0:attrname-format:basic", "UserSurname"},
+	{"full_name", "urn:oasis:names:tc:SAML:2.0:attrname-format:basic", "UserCommonName"},
+}
+
+// wsAddRequestedAttributes adds an AttributeConsumingService to published SP metadata XML.
+func wsAddRequestedAttributes(b []byte) ([]byte, *saml.EntityDescriptor, error) {
+	doc := etree.NewDocument()
+	if err := doc.ReadFromBytes(b); err != nil {
+		return nil, nil, err
+	}
+	sd := doc.FindElement("//SPSSODescriptor")
+	if sd == nil {
+		return nil, nil, fmt.Errorf("no SPSSODescriptor in the published metadata")
+	}
+	acs := sd.CreateElement("AttributeConsumingService")
+	acs.CreateAttr("index", "1")
+	acs.CreateAttr("isDefault", "true")
+	acs.CreateElement("ServiceName").SetText("the application")
+	for _, r := range wsRequested {
+		ra := acs.CreateElement("RequestedAttribute")
+		ra.CreateAttr("Name", r.Name)
+		ra.CreateAttr("NameFormat", r.Format)
+	}
+	nb, err := doc.WriteToBytes()
+	if err != nil {
+		return nil, nil, err
+	}
+	out := &saml.EntityDescriptor{}
+	if err := xml.Unmarshal(nb, out); err != nil {
+		return nil, nil, err
+	}
+	return nb, out, nil
 }
 
 func (c wsCfg) String() string {
 	s := fmt.Sprintf("entityid=%s,spkey=%s,binding=%s,signed=%v,enc=%s,idpkey=%s,hash=%s", c.EntityID, c.SPKey, c.Binding, c.Signed, c.Enc, c.IdpKey, c.Hash)
 	if c.MdAge == "stale" {
 		s += ",mdage=stale"
+	}
+	if c.ReqAttrs {
+		s += ",reqattrs"
 	}
 	return s
 }
@@ -258,6 +301,11 @@ func wsSetup(c wsCfg) (*wsFlow, error) {
 			return nil, fmt.Errorf("sp metadata: %w", err)
 		}
 	}
+	if c.ReqAttrs {
+		if spxml, spMD, err = wsAddRequestedAttributes(spxml); err != nil {
+			return nil, fmt.Errorf("sp metadata: %w", err)
+		}
+	}
 	reg.m[spMD.EntityID] = spMD
 	return &wsFlow{Cfg: c, SP: s, IdP: idp, SPXML: spxml, IDXML: idxml}, nil
 }
@@ -407,8 +455,16 @@ const wsURI = "urn:oasis:names:tc:SAML:2.0:attrname-format:uri"
 
 // wsExpectedAttrs: no attribute-consuming service is published by ServiceProvider.Metadata,
 // so the list starts with the fixed attributes.
-func wsExpectedAttrs(s *saml.Session) []wsAttr {
+func wsExpectedAttrs(s *saml.Session, requested bool) []wsAttr {
 	var out []wsAttr
+	if requested {
+		// requested attributes come first, under the requested name and format, each with its documented session field
+		field := map[string]string{"UserName": s.UserName, "UserEmail": s.UserEmail, "UserGivenName": s.UserGivenName,
+			"UserSurname": s.UserSurname, "UserCommonName": s.UserCommonName}
+		for _, r := range wsRequested {
+			out = append(out, wsAttr{Name: r.Name, NameFormat: r.Format, Values: []string{field[r.Field]}})
+		}
+	}
 	add := func(fn, n, v string) {
 		out = append(out, wsAttr{Name: n, FriendlyName: fn, NameFormat: wsURI, Values: []string{v}})
 	}
